@@ -1,9 +1,12 @@
 //! Real-thread helpers: a park/unpark `block_on` with a quiescence (deadlock) detector.
 //!
-//! A deadlock is declared only when *every* thread of the group is either finished or parked
-//! with its wake flag clear and the group's wake counter did not move over ten consecutive
-//! scans — a state from which no further event is possible, so the verdict does not depend on
-//! the speed of the machine. (The wall-clock watchdog in ./check only ever yields "inconclusive".)
+//! A deadlock is declared only when *every* thread of the group is either finished or parked,
+//! *no* thread has an unconsumed wake-up (`pending`, counted exactly: set when a waker flips a
+//! thread's flag, cleared when that thread takes the flag) and the group's wake counter did not
+//! move over ten consecutive scans — a state from which no further event is possible, so the
+//! verdict does not depend on the speed of the machine: a thread that was woken but has not been
+//! scheduled yet (seen on a heavily loaded machine) keeps `pending` above zero for as long as that
+//! takes. (The wall-clock watchdog in ./check only ever yields "inconclusive".)
 
 use std::future::Future;
 use std::sync::atomic::{AtomicBool, AtomicU64, AtomicUsize, Ordering};
@@ -16,12 +19,14 @@ pub struct Group {
     parked: AtomicUsize,
     finished: AtomicUsize,
     wakes: AtomicU64,
+    /// threads whose wake flag is set and not yet consumed
+    pending: AtomicUsize,
     pub deadlocked: AtomicBool,
 }
 
 impl Group {
     pub fn new(total: usize) -> Arc<Self> {
-        Arc::new(Self { total, parked: AtomicUsize::new(0), finished: AtomicUsize::new(0), wakes: AtomicU64::new(0), deadlocked: AtomicBool::new(false) })
+        Arc::new(Self { total, parked: AtomicUsize::new(0), finished: AtomicUsize::new(0), wakes: AtomicU64::new(0), pending: AtomicUsize::new(0), deadlocked: AtomicBool::new(false) })
     }
     /// Marks one thread of the group as finished.
     pub fn finish(&self) {
@@ -46,8 +51,35 @@ impl Drop for FinishGuard {
 
 struct ThreadWaker {
     thread: std::thread::Thread,
-    flag: AtomicBool,
+    /// (wake flag, block_on has returned) — under one lock so that `Group::pending` is exact
+    state: std::sync::Mutex<(bool, bool)>,
     group: Arc<Group>,
+}
+
+impl ThreadWaker {
+    /// Takes the wake flag; true if it was set.
+    fn take(&self) -> bool {
+        let mut st = self.state.lock().unwrap();
+        if st.0 {
+            st.0 = false;
+            self.group.pending.fetch_sub(1, Ordering::SeqCst);
+            true
+        } else {
+            false
+        }
+    }
+    fn is_set(&self) -> bool {
+        self.state.lock().unwrap().0
+    }
+    /// block_on is returning: later wake-ups (from waker clones that outlive it) no longer count.
+    fn retire(&self) {
+        let mut st = self.state.lock().unwrap();
+        st.1 = true;
+        if st.0 {
+            st.0 = false;
+            self.group.pending.fetch_sub(1, Ordering::SeqCst);
+        }
+    }
 }
 impl Wake for ThreadWaker {
     fn wake(self: Arc<Self>) {
@@ -55,7 +87,13 @@ impl Wake for ThreadWaker {
     }
     fn wake_by_ref(self: &Arc<Self>) {
         self.group.wakes.fetch_add(1, Ordering::SeqCst);
-        self.flag.store(true, Ordering::SeqCst);
+        {
+            let mut st = self.state.lock().unwrap();
+            if !st.1 && !st.0 {
+                st.0 = true;
+                self.group.pending.fetch_add(1, Ordering::SeqCst);
+            }
+        }
         self.thread.unpark();
     }
 }
@@ -66,14 +104,22 @@ pub struct Deadlock;
 /// Drives `f` on the calling thread. Returns Err(Deadlock) if the whole group is quiescent.
 pub fn block_on<F: Future>(group: &Arc<Group>, f: F) -> Result<F::Output, Deadlock> {
     let mut f = Box::pin(f);
-    let tw = Arc::new(ThreadWaker { thread: std::thread::current(), flag: AtomicBool::new(true), group: group.clone() });
+    let tw = Arc::new(ThreadWaker { thread: std::thread::current(), state: std::sync::Mutex::new((true, false)), group: group.clone() });
+    group.pending.fetch_add(1, Ordering::SeqCst); // the initial poll is owed
+    struct Retire(Arc<ThreadWaker>);
+    impl Drop for Retire {
+        fn drop(&mut self) {
+            self.0.retire();
+        }
+    }
+    let _retire = Retire(tw.clone());
     let waker = Waker::from(tw.clone());
     let mut cx = Context::from_waker(&waker);
     loop {
         if group.deadlocked.load(Ordering::SeqCst) {
             return Err(Deadlock);
         }
-        if tw.flag.swap(false, Ordering::SeqCst) {
+        if tw.take() {
             if let Poll::Ready(v) = f.as_mut().poll(&mut cx) {
                 return Ok(v);
             }
@@ -84,10 +130,10 @@ pub fn block_on<F: Future>(group: &Arc<Group>, f: F) -> Result<F::Output, Deadlo
         let mut last_wakes = group.wake_count();
         loop {
             std::thread::park_timeout(Duration::from_millis(20));
-            if tw.flag.load(Ordering::SeqCst) || group.deadlocked.load(Ordering::SeqCst) {
+            if tw.is_set() || group.deadlocked.load(Ordering::SeqCst) {
                 break;
             }
-            let all_idle = group.parked.load(Ordering::SeqCst) + group.finished.load(Ordering::SeqCst) >= group.total;
+            let all_idle = group.parked.load(Ordering::SeqCst) + group.finished.load(Ordering::SeqCst) >= group.total && group.pending.load(Ordering::SeqCst) == 0;
             let w = group.wake_count();
             if all_idle && w == last_wakes {
                 quiet_scans += 1;
